@@ -3,7 +3,7 @@
 (* Validation of executions with an injected database fault or a crash     *)
 (* (pv/faults.py).  One NDJSON line per (request, fault):                  *)
 (*   [id, mode ("fault" | "crash"), db0, req, fault : [kind, k, at],       *)
-(*    resp, wellformed, final, std_ok]                                     *)
+(*    resp, wellformed, final, std_ok, restart_ok]                         *)
 (*                                                                         *)
 (* C17  a request answered with success has had its effect exactly once    *)
 (*      (the state API!Apply prescribes; after a retry generations may     *)
@@ -63,6 +63,9 @@ FaultVerdict(ln) ==
 \cup (IF IsErr(ln.resp) /\ ~ln.wellformed THEN {"C17_ErrorNotWellFormed"} ELSE {})
 \cup (IF ln.resp.status = 599 THEN {"C17_EscapedException"} ELSE {})
 \cup (IF IsOk(ln.resp) /\ ~ln.std_ok THEN {"C17_SyncIncomplete"} ELSE {})
+\* a start-up that failed is followed by another start-up of the same process (the WSGI server
+\* calls the application factory again): after that one the standard names all exist
+\cup (IF ln.restart_ok THEN {} ELSE {"C17_StartupAfterFailedStartupIncomplete", "C19_StartupAfterFailedStartupIncomplete"})
 \cup (IF C08_Inv(fin) /\ C09_Inv(fin) /\ C12_Inv(fin) THEN {} ELSE {"C17_Invariants"})
 
 CrashVerdict(ln) ==
